@@ -52,6 +52,10 @@ def _worker(args):
             elif st[0] == "free":
                 n_objs_alive -= 1
                 last_failed.pop(st[1], None)
+            if st[0] == "set" and o.get("old") != st[4]:
+                # a setter on a fresh object carrying the current settings returns the current value
+                sh.viol.append(("differs_from_fresh_object:set:%s@-" % st[2], "step %d set %s: returned previous value %s, "
+                                "the object's setting was %s" % (i, st[2], o.get("old"), st[4]), dict(rep, step=i)))
             if st[0] not in ("parse", "def"):
                 continue
             fc = tr.get(fresh[hist.fresh_key(st)])
